@@ -11,7 +11,7 @@ structure D where
   st : St := {}
   fsmRan : Bool := false
 
-def flush (st : St) : St × List String := ({ st with trace := [] }, st.trace.reverse)
+def flush (st : St) : St × List String := ({ st with n := { st.n with trace := [] } }, st.n.trace.reverse)
 
 def parseTape (ws : List String) : Option (List TapeEv) :=
   ws.mapM fun w =>
@@ -44,7 +44,7 @@ def inRange (v lo hi : Nat) : Bool := lo ≤ v && v ≤ hi
 
 def showSock (st : St) : String :=
   let b := fun (x : Bool) => if x then "1" else "0"
-  s!"sock state={st.s.state.name} ver={st.s.version} sess={st.s.session} serial={st.s.serial} req={b st.s.reqSession} lu={st.s.lastUpdate} reset={b st.s.isResetting} hasrecv={b st.s.hasReceived} refresh={st.s.refresh} retry={st.s.retry} expire={st.s.expire} now={st.now}"
+  s!"sock state={st.c.state.name} ver={st.c.version} sess={st.ss.session} serial={st.ss.serial} req={b st.ss.reqSession} lu={st.ss.lastUpdate} reset={b st.ss.isResetting} hasrecv={b st.c.hasReceived} refresh={st.tm.refresh} retry={st.tm.retry} expire={st.tm.expire} now={st.n.now}"
 
 def rcStr : PfxRc → String
   | .success => "0" | .error => "-1" | .duplicate => "-2" | .notFound => "-3"
@@ -56,17 +56,17 @@ def step (d : D) (line : String) : D × String :=
   | ["sock", a, b, c, m] =>
     match a.toNat?, b.toNat?, c.toNat?, m.toNat? with
     | some a, some b, some c, some m =>
-      if st.threaded || a > 4294967295 || b > 4294967295 || c > 4294967295 then bad else
+      if st.n.threaded || a > 4294967295 || b > 4294967295 || c > 4294967295 then bad else
       match IvMode.ofCode m with
       | none => bad
       | some mode =>
         if inRange a Gen.RTR_REFRESH_MIN Gen.RTR_REFRESH_MAX && inRange b Gen.RTR_EXPIRATION_MIN Gen.RTR_EXPIRATION_MAX &&
            inRange c Gen.RTR_RETRY_MIN Gen.RTR_RETRY_MAX then
-          ({ st := { s := { refresh := a, expire := b, retry := c, ivMode := mode } }, fsmRan := false }, "0")
+          ({ st := { tm := { refresh := a, expire := b, retry := c, ivMode := mode } }, fsmRan := false }, "0")
         else
           -- rtr_init refuses and leaves the (zeroed) socket untouched
-          ({ st := { s := { refresh := 0, expire := 0, retry := 0, ivMode := .ignoreAny, state := .connecting,
-                            version := 0, reqSession := false } }, fsmRan := false }, "-2")
+          ({ st := { tm := { refresh := 0, expire := 0, retry := 0, ivMode := .ignoreAny },
+                     c := { state := .connecting, version := 0 }, ss := { reqSession := false } }, fsmRan := false }, "-2")
     | _, _, _, _ => bad
   | ["pre", "pfx", v, a, len, ml, asn, src] =>
     match hexToBytes? a, len.toNat?, ml.toNat?, asn.toNat?, src.toNat? with
@@ -74,73 +74,74 @@ def step (d : D) (line : String) : D × String :=
       if (v ≠ "4" ∧ v ≠ "6") || src > 4 || len > 255 || ml > 255 || asn > 4294967295 ||
          ab.length ≠ (if v = "4" then 4 else 16) then bad else
       let addr := ab.foldl (fun acc x => acc * 256 + x) 0
-      let (pt, rc) := ptAdd st.pt ⟨v = "6", addr, len, ml, asn, src⟩
-      ({ d with st := { st with pt := pt } }, rcStr rc)
+      let (pt, rc) := ptAdd st.t.pt ⟨v = "6", addr, len, ml, asn, src⟩
+      ({ d with st := { st with t := { st.t with pt := pt } } }, rcStr rc)
     | _, _, _, _, _ => bad
   | ["pre", "key", asn, ski, spki, src] =>
     match asn.toNat?, hexToBytes? ski, hexToBytes? spki, src.toNat? with
     | some asn, some ski, some spki, some src =>
       if src > 4 || asn > 4294967295 || ski.length ≠ 20 || spki.length ≠ 91 then bad else
-      let (kt, rc) := ktAdd st.kt ⟨asn, ski, spki, src⟩
-      ({ d with st := { st with kt := kt } }, rcStr rc)
+      let (kt, rc) := ktAdd st.t.kt ⟨asn, ski, spki, src⟩
+      ({ d with st := { st with t := { st.t with kt := kt } } }, rcStr rc)
     | _, _, _, _ => bad
   | ["set", f, v] =>
     match v.toNat? with
     | none => bad
     | some v =>
-      let ok := fun (s : Sock) => ({ d with st := { st with s := s } }, "ok")
+      let okc := fun (c : Conn) => ({ d with st := { st with c := c } }, "ok")
+      let oks := fun (ss : Sess) => ({ d with st := { st with ss := ss } }, "ok")
       if f = "state" then
-        match SState.ofCode v with | some x => ok { st.s with state := x } | none => bad
-      else if f = "version" ∧ v ≤ 1 then ok { st.s with version := v }
-      else if f = "session" ∧ v ≤ 65535 then ok { st.s with session := v }
-      else if f = "serial" ∧ v ≤ 4294967295 then ok { st.s with serial := v }
-      else if f = "reqsess" ∧ v ≤ 1 then ok { st.s with reqSession := v = 1 }
-      else if f = "lastupdate" then ok { st.s with lastUpdate := v }
-      else if f = "resetting" ∧ v ≤ 1 then ok { st.s with isResetting := v = 1 }
-      else if f = "hasrecv" ∧ v ≤ 1 then ok { st.s with hasReceived := v = 1 }
-      else if f = "now" then ({ d with st := { st with now := v } }, "ok")
+        match SState.ofCode v with | some x => okc { st.c with state := x } | none => bad
+      else if f = "version" ∧ v ≤ 1 then okc { st.c with version := v }
+      else if f = "session" ∧ v ≤ 65535 then oks { st.ss with session := v }
+      else if f = "serial" ∧ v ≤ 4294967295 then oks { st.ss with serial := v }
+      else if f = "reqsess" ∧ v ≤ 1 then oks { st.ss with reqSession := v = 1 }
+      else if f = "lastupdate" then oks { st.ss with lastUpdate := v }
+      else if f = "resetting" ∧ v ≤ 1 then oks { st.ss with isResetting := v = 1 }
+      else if f = "hasrecv" ∧ v ≤ 1 then okc { st.c with hasReceived := v = 1 }
+      else if f = "now" then ({ d with st := { st with n := { st.n with now := v } } }, "ok")
       else bad
   | "tape" :: ws =>
     match parseTape ws with
-    | some evs => ({ d with st := { st with tape := st.tape ++ evs } }, "ok")
+    | some evs => ({ d with st := { st with n := { st.n with tape := st.n.tape ++ evs } } }, "ok")
     | none => bad
   | "sendq" :: ws =>
     match parseSendq ws with
-    | some evs => ({ d with st := { st with sendQ := st.sendQ ++ evs } }, "ok")
+    | some evs => ({ d with st := { st with n := { st.n with sendQ := st.n.sendQ ++ evs } } }, "ok")
     | none => bad
   | "openq" :: ws =>
     match parseOpenq ws with
-    | some evs => ({ d with st := { st with openQ := st.openQ ++ evs } }, "ok")
+    | some evs => ({ d with st := { st with n := { st.n with openQ := st.n.openQ ++ evs } } }, "ok")
     | none => bad
   | ["run", "sync"] =>
-    if st.threaded then bad else
-    let (ok, st) := sync (tapeFuel st) st
-    let (st, tr) := flush (st.emit s!"ret {if ok then 0 else -1}")
+    if st.n.threaded then bad else
+    let (ok, st) := sync (tapeFuel st.n) st
+    let (st, tr) := flush { st with n := st.n.emit s!"ret {if ok then 0 else -1}" }
     ({ d with st := st }, "\n".intercalate (tr ++ ["end"]))
   | ["run", "wait"] =>
-    if st.threaded then bad else
+    if st.n.threaded then bad else
     let (ok, st) := waitForSync st
-    let (st, tr) := flush (st.emit s!"ret {if ok then 0 else -1}")
+    let (st, tr) := flush { st with n := st.n.emit s!"ret {if ok then 0 else -1}" }
     ({ d with st := st }, "\n".intercalate (tr ++ ["end"]))
   | ["run", "fsm"] =>
-    if st.threaded || d.fsmRan || st.s.state = .shutdown then bad else
-    let budget := (tapeFuel st + st.sendQ.length + st.openQ.length) * 8 + 64
-    let st := fsmStart budget (tapeFuel st) st
+    if st.n.threaded || d.fsmRan || st.c.state = .shutdown then bad else
+    let budget := (tapeFuel st.n + st.n.sendQ.length + st.n.openQ.length) * 8 + 64
+    let st := fsmStart budget (tapeFuel st.n) st
     let (st, tr) := flush st
     ({ st := st, fsmRan := true }, "\n".intercalate (tr ++ ["end"]))
   | ["run", "stop"] =>
-    if !st.threaded then bad else
+    if !st.n.threaded then bad else
     let st := stop st
     let (st, tr) := flush st
-    ({ st := { st with tape := [] }, fsmRan := false }, "\n".intercalate (tr ++ ["end"]))
+    ({ st := { st with n := { st.n with tape := [] } }, fsmRan := false }, "\n".intercalate (tr ++ ["end"]))
   | ["val", v, a, len, asn] =>
     match hexToNat? a, len.toNat?, asn.toNat? with
     | some a, some len, some asn =>
       if (v ≠ "4" ∧ v ≠ "6") || len > 255 || asn > 4294967295 || a ≥ 2 ^ (if v = "6" then 128 else 32) then bad
-      else (d, validate st (v = "6") asn a len)
+      else (d, validate st.t (v = "6") asn a len)
     | _, _, _ => bad
   | ["show"] => (d, showSock st)
-  | ["dump"] => (d, "\n".intercalate (dumpLines "D" st))
+  | ["dump"] => (d, "\n".intercalate (dumpLines "D" st.t))
   | _ => bad
 
 def main : IO Unit := do
